@@ -217,7 +217,7 @@ CHECKS = {
  "C20": dict(
    text="Differential conformance against one contract: every workload (PUSH/PULL, DEALER/ROUTER, REQ/REP, PUB/SUB; 1 B .. 300 kB below / at / "
         "above the buffer size; paced and stalled receivers; early data; PLAIN good / bad password; incompatible socket types; connect / "
-        "disconnect churn) runs on the Tokio backend and on io_uring x {zero-copy, multishot, cork} x pool sizes (2..16 buffers of 4..64 "
+        "disconnect churn; the bound side going away and coming back, for a connected PUSH and a connected PULL) runs on the Tokio backend and on io_uring x {zero-copy, multishot, cork} x pool sizes (2..16 buffers of 4..64 "
         "KiB, one harness process per pool configuration); the timing-free application-visible projection (messages per receiver and "
         "sender in order with integrity, kinds of results of every call, handshake outcome) must be identical and every run of either "
         "backend is validated by TLC against Delivery.tla. TLC checks Uring.tla exhaustively (send-buffer pool, provided-buffer ring, "
